@@ -73,7 +73,19 @@ var opqTypes = []opqType{
 		return opqErrs[id]
 	}},
 	21: {"main.opqUncmp", true, func(id int) interface{} { return opqUncmp{F: []int{id}} }},
+	// a pointer to an interface that holds a JSON object (the address a caller gave to json.Unmarshal): still a pointer,
+	// not a decoded JSON value -- nothing may look through it
+	22: {"*interface {}", true, func(id int) interface{} {
+		if opqIfPtrs[id] == nil {
+			p := new(interface{})
+			*p = map[string]interface{}{"a": float64(id), "b": 2.0}
+			opqIfPtrs[id] = p
+		}
+		return opqIfPtrs[id]
+	}},
 }
+
+var opqIfPtrs = map[int]*interface{}{}
 
 // uncomparable struct: using it with == panics at run time
 type opqUncmp struct{ F []int }
@@ -81,7 +93,7 @@ type opqUncmp struct{ F []int }
 // types 14 and 19 are map[string]interface{} / []interface{} typed nils: to the library they ARE
 // JSON containers (empty object / empty array); the model uses them only via Gen_Opaque's
 // dedicated constructors and never as "opq" leaves.  They stay in the table so the numbering is stable.
-var opqLeafTypes = []int{0, 1, 2, 3, 4, 5, 6, 7, 8, 9, 10, 11, 12, 13, 15, 16, 17, 18, 20, 21}
+var opqLeafTypes = []int{0, 1, 2, 3, 4, 5, 6, 7, 8, 9, 10, 11, 12, 13, 15, 16, 17, 18, 20, 21, 22}
 
 func opaqueValue(id, ty int) interface{} { return opqTypes[ty].mk(id) }
 
